@@ -193,7 +193,7 @@ class Interp:
     #: literal cut-offs below this are "smaller than every generic positive value" (see `generic`)
     SMALL = 1e-3
 
-    def __init__(self, module_funcs, externals=None, number_like=(), generic=()):
+    def __init__(self, module_funcs, externals=None, number_like=(), generic=(), module_globals=None):
         """module_funcs: name -> ast.FunctionDef of the module (helpers are interpreted on call);
         externals: name -> Python callable standing for a library routine (solve_ivp, ...);
         number_like: indeterminates that `isinstance(v, Number)` accepts."""
@@ -206,6 +206,9 @@ class Interp:
         # indeterminates known to be strictly increasing in this configuration (a finite set of
         # orderings is enumerated by the caller): decides min / max / comparisons among them
         self.chain = []
+        # module-level assignments `name = <expression>` of the analysed module, evaluated on demand
+        self.module_globals = dict(module_globals or {})
+        self._glob_cache = {}
         self._yields = []
         self.depth = 0
         self.trace = []
@@ -371,6 +374,8 @@ class Interp:
             return bool(v)
         if v is None:
             return False
+        if isinstance(v, (list, tuple, dict, str, range)):
+            return len(v) > 0
         if isinstance(v, (Obj, Fn, Closure)):
             return True
         if isinstance(v, (sp.Integer, sp.Rational)):
@@ -392,6 +397,9 @@ class Interp:
             return v
         if isinstance(v, np.ndarray) and v.dtype.kind in "iu":
             return v
+        if isinstance(v, np.ndarray) and v.dtype == object and v.size and all(
+                isinstance(x, (int, np.integer, sp.Integer)) and not isinstance(x, bool) for x in v.flatten()):
+            return np.array([int(x) for x in v.flatten()], dtype=int).reshape(v.shape)
         return self._int(v)
 
     def _int(self, v):
@@ -456,8 +464,14 @@ class Interp:
                 return self.externals[e.id]
             if e.id in self.module_funcs:
                 return ("modfunc", e.id)
+            if e.id in self._glob_cache:
+                return self._glob_cache[e.id]
+            if e.id in self.module_globals:
+                v = self.ev(self.module_globals[e.id], {})
+                self._glob_cache[e.id] = v
+                return v
             if e.id in ("float", "int", "len", "range", "enumerate", "list", "tuple", "min", "max", "isinstance",
-                        "callable", "zip", "Number", "Real", "Integral", "bool", "abs", "reversed", "sum", "dict", "type", "slice"):
+                        "callable", "zip", "Number", "Real", "Integral", "bool", "abs", "reversed", "sum", "dict", "type", "slice", "sorted"):
                 return ("builtin", e.id)
             raise Undecided(f"name `{e.id}`")
         if isinstance(e, ast.UnaryOp):
@@ -501,8 +515,13 @@ class Interp:
             return {self.ev(k, env): self.ev(v, env) for k, v in zip(e.keys, e.values)}
         if isinstance(e, ast.Subscript):
             base = self.ev(e.value, env)
+            if isinstance(base, dict):
+                key = self.ev(e.slice, env)
+                if key not in base:
+                    raise Undecided(f"key `{key}` of `{norm(e.value)[:30]}`")
+                return base[key]
             idx = self.index(e.slice, env)
-            if isinstance(base, (np.ndarray, list, tuple)):
+            if isinstance(base, (np.ndarray, list, tuple, range)):
                 try:
                     return base[idx]
                 except (IndexError, TypeError) as ex:
@@ -540,6 +559,13 @@ class Interp:
             if isinstance(op, (ast.Is, ast.IsNot)):
                 r = (left is right) or (left is None and right is None)
                 r = r if isinstance(op, ast.Is) else not r
+            elif isinstance(op, (ast.In, ast.NotIn)):
+                if not isinstance(right, (list, tuple, dict, range)) or isinstance(left, (sp.Basic, np.ndarray)) and not isinstance(left, sp.Integer):
+                    raise Undecided("membership test on symbolic data")
+                r = left in right
+                r = r if isinstance(op, ast.In) else not r
+            elif isinstance(left, str) and isinstance(right, str) and isinstance(op, (ast.Eq, ast.NotEq)):
+                r = (left == right) if isinstance(op, ast.Eq) else (left != right)
             elif isinstance(left, np.ndarray) or isinstance(right, np.ndarray):
                 if len(e.ops) != 1:
                     raise Undecided("chained comparison of arrays")
@@ -639,8 +665,8 @@ class Interp:
                 return base.T
             if e.attr in ("dot", "copy", "flatten", "ravel", "astype", "sum", "reshape", "tolist"):
                 return ("method", base, e.attr)
-        if isinstance(base, list) and e.attr == "append":
-            return ("method", base, "append")
+        if isinstance(base, list) and e.attr in ("append", "extend", "insert", "copy", "index", "count"):
+            return ("method", base, e.attr)
         if isinstance(base, dict) and e.attr in ("setdefault", "get", "items", "keys", "values"):
             return ("method", base, e.attr)
         raise Undecided(f"attribute `{norm(e)[:50]}`")
@@ -692,6 +718,16 @@ class Interp:
             if name == "append":
                 base.append(args[0])
                 return None
+            if isinstance(base, list) and name == "extend":
+                base.extend(list(args[0]))
+                return None
+            if isinstance(base, list) and name == "insert":
+                base.insert(self._int(args[0]), args[1])
+                return None
+            if isinstance(base, list) and name == "copy":
+                return list(base)
+            if isinstance(base, list) and name in ("index", "count"):
+                return getattr(base, name)(args[0])
             if name == "setdefault":
                 return base.setdefault(args[0], args[1] if len(args) > 1 else None)
             if name == "get":
@@ -717,6 +753,11 @@ class Interp:
             return list(enumerate(list(args[0])))
         if name == "reversed":
             return list(reversed(list(args[0])))
+        if name == "sorted":
+            vals = list(args[0])
+            if kw or not all(isinstance(v, (int, float, str)) for v in vals):
+                raise Undecided("sorted of symbolic data / with a key")
+            return sorted(vals)
         if name == "zip":
             return list(zip(*[list(a) for a in args]))
         if name in ("list", "tuple"):
@@ -743,6 +784,9 @@ class Interp:
                     raise Undecided("isinstance with mixed kinds")
                 return isinstance(v, Obj) and v.cls in {k.name for k in kinds}
             names = {k[1] for k in kinds if isinstance(k, tuple)}
+            if names and names <= {"int", "int32", "int64", "integer", "Integral"}:
+                return isinstance(v, (int, np.integer, sp.Integer)) and not isinstance(v, bool)
+            names = {"int" if n_ in ("int32", "int64", "integer") else "float" if n_ in ("float64", "float32", "floating") else n_ for n_ in names}
             if names <= {"Number", "Real", "float", "int", "Integral"}:
                 if isinstance(v, (Fn, Closure, Obj, np.ndarray, list, tuple)) or v is None:
                     return False
@@ -823,6 +867,15 @@ class Interp:
                     out[idx] = sp.sqrt(tot[idx])
                 return out
             return sp.sqrt(tot)
+        if name in ("prod", "product"):
+            v = args[0] if isinstance(args[0], np.ndarray) else _obj_array(args[0])
+            axis = kw.get("axis", args[1] if len(args) > 1 else None)
+            if v.size == 0:
+                return sp.Integer(1)
+            return v.astype(object).prod(axis=None if axis is None else self._int(axis))
+        if name == "ravel":
+            v = args[0] if isinstance(args[0], np.ndarray) else _obj_array(args[0])
+            return v.ravel()
         if name == "moveaxis":
             return np.moveaxis(args[0], self._int(args[1]), self._int(args[2]))
         if name == "flatnonzero" and isinstance(args[0], np.ndarray) and args[0].dtype == bool:
